@@ -1,6 +1,6 @@
-From Coq Require Import ZArith List Ascii.
+From Coq Require Import ZArith List Ascii Sorting.Permutation.
 From Cspuz Require Import Lib.PyErr Codec.Comb Codec.CombWf Codec.CombBasics Codec.CombLeaf Codec.CombRoundTrip
-  Codec.RoomsGrid Codec.RoomsFill Codec.RoomsProofs.
+  Codec.RoomsGrid Codec.RoomsFill Codec.RoomsProofs Codec.RoomsCanon Codec.RoomsTotal Codec.RoomsValued.
 Import ListNotations.
 Local Open Scope Z_scope.
 
@@ -41,6 +41,43 @@ Theorem rooms_roundtrip_any_order : forall h w skip allow rs rs' s, 1 <= h -> 1 
   deserialize_problem (Rooms skip allow) s h w = Ok (Some (rooms_to_pv rs')).
 Proof. exact RoomsProofs.rooms_roundtrip_any_order. Qed.
 Print Assumptions rooms_roundtrip_any_order.
+
+(* Rooms, full statement (existence included): EVERY partition of the h x w board into non-empty connected
+   rooms, listed in any order of rooms and of cells, serializes (never None, never an error), and the text
+   decodes to a canonical listing rs' of the same partition (rooms_equiv: same rooms as sets of cells) *)
+Theorem rooms_roundtrip_any_partition : forall h w skip allow rs, 1 <= h -> 1 <= w -> valid_rooms h w rs ->
+  exists s rs', serialize_problem (Rooms skip allow) (rooms_to_pv rs) h w = Ok s /\
+    canonical_rooms h w rs' /\ rooms_equiv rs rs' /\
+    deserialize_problem (Rooms skip allow) s h w = Ok (Some (rooms_to_pv rs')).
+Proof. exact rooms_roundtrip_proof. Qed.
+Print Assumptions rooms_roundtrip_any_partition.
+
+(* the totality half alone, at the combinator level and for every environment *)
+Theorem rooms_serialize_total : forall e skip rs, env_ok e -> valid_rooms (height e) (width e) rs ->
+  exists s, rooms_ser e skip (VList [rooms_to_pv rs]) 0 = Ok (Some (1%nat, s)).
+Proof. exact rooms_ser_total. Qed.
+Print Assumptions rooms_serialize_total.
+
+(* ValuedRooms with the rooms (and the cells inside rooms) listed in ANY order: serialize sorts the
+   (room, value) pairs by min(room); the decoder returns the canonical listing rs' and the values in the
+   order of rs' - ps is the permutation of zip(rooms, values) that pairs every decoded room (a permutation of
+   the cells of the given room) with the value given for it.  Any well-formed value combinator. *)
+Theorem valued_rooms_roundtrip_any_order :
+  forall h w vc skip allow rs vs, 1 <= h -> 1 <= w -> wf (ValuedRooms vc skip allow) = true ->
+  valid_rooms h w rs -> length vs = length rs ->
+  forall s, serialize_problem (ValuedRooms vc skip allow) (VTup [rooms_to_pv rs; VList vs]) h w = Ok s ->
+  (forall vs', Permutation vs' vs -> forall p, accepts (mk_env h w) vc vs' p) ->
+  exists ps rs', Permutation ps (combine rs vs) /\ Forall2 (fun p r' => Permutation (fst p) r') ps rs' /\
+    canonical_rooms h w rs' /\
+    deserialize_problem (ValuedRooms vc skip allow) s h w
+    = Ok (Some (VTup [rooms_to_pv rs'; VList (map snd ps)])).
+Proof. exact RoomsValued.valued_rooms_roundtrip_any_order. Qed.
+Print Assumptions valued_rooms_roundtrip_any_order.
+
+(* the two statements CombRoundTrip.v left open (premises of C16's *_given_rooms theorems) hold *)
+Theorem rooms_statements_hold : rooms_roundtrip_statement /\ valued_rooms_roundtrip_statement.
+Proof. exact (conj rooms_roundtrip_proof valued_rooms_roundtrip_proof). Qed.
+Print Assumptions rooms_statements_hold.
 
 (* Rooms.serialize computes the room-index grid of any valid partition (rooms in any order) *)
 Theorem rooms_assign_correct : forall H W rs, valid_rooms (Z.of_nat H) (Z.of_nat W) rs ->
